@@ -19,6 +19,7 @@ pub mod c14e;
 pub mod c15;
 pub mod c16;
 pub mod c17;
+pub mod c18;
 pub mod c19;
 pub mod c20;
 pub mod c20e;
@@ -52,6 +53,7 @@ pub fn dispatch(prop: &str, ctx: &Ctx, rep: &mut Report) -> bool {
         "C15" => c15::run(ctx, rep),
         "C16" => c16::run(ctx, rep),
         "C17" => c17::run(ctx, rep),
+        "C18" => c18::run(ctx, rep),
         "C19" => c19::run(ctx, rep),
         "C20" => c20::run(ctx, rep),
         _ => return false,
